@@ -64,11 +64,18 @@ func createStructDesc(rv reflect.Value) (*structDesc, error) {
 	if sd := sds.Get(abiType); sd != nil {
 		return sd, nil
 	}
+	built := false
+	defer func() {
+		if !built {
+			// also when the build is aborted by a panic, e.g. of the type's own InitDefault
+			rollbackPrefetch()
+		}
+	}()
 	sd, err := newStructDescAndPrefetch(rt)
 	if err != nil {
-		rollbackPrefetch()
 		return nil, err
 	}
+	built = true
 	commitPrefetch()
 	sds.Set(abiType, sd)
 	if rv.Kind() == reflect.Ptr {
